@@ -78,8 +78,16 @@ func balancedSkel(tags []string) bool {
 
 func skSource(tags []string) string {
 	var sb strings.Builder
-	for _, t := range tags {
+	for i, t := range tags {
+		// comments on the same line as the tags (they are removed before parsing and must take
+		// nothing else with them); deterministic in the position so that replays agree
+		if (i*7+len(tags))%5 == 0 {
+			sb.WriteString([]string{"{# c #}", "{#x#}", "{# a b #}"}[(i+len(tags))%3])
+		}
 		sb.WriteString(skText[t])
+	}
+	if len(tags)%3 == 0 {
+		sb.WriteString("{# tail #}")
 	}
 	return sb.String()
 }
